@@ -1,7 +1,7 @@
 """C02 - evaluation budget and evaluation counters are exact."""
 import copy
 import numpy as np
-from .. import engine, gen, oracles
+from .. import engine, gen, oracles, campaign
 
 ID = "C02"
 NUM = 2
@@ -72,6 +72,7 @@ def make_cfg(seed, i, for_ref=False):
     elif v < 0.22:
         cfg["reg"] = dict(type="l1", lam=float(10.0 ** rng.uniform(-2, 0)))
         cfg["args"]["maxfun"] = min(cfg["args"]["maxfun"], 30)
+    campaign.maybe_failpoint(cfg, rng, p=0.1)
     return cfg
 
 
